@@ -41,7 +41,7 @@ def Gr : Tables := { G with tupleIsList := false, dupExc := .sa }
 /-- what the hand model hard-codes about the source, pinned against the regenerated data -/
 theorem pins :
     SaTables.caught = ["SQLAlchemyError", "NotImplementedError"]
-    ∧ SaTables.attrStores = [("to_expression", "negate")]   -- `col.negate`: `col` is the SQLAlchemy element being built, not the tree
+    ∧ SaTables.attrStores = [("prepare_case", "type"), ("to_expression", "negate")]   -- `col.type` (since e7eccad) / `col.negate`: `col` is the SQLAlchemy element being built, not the tree
     ∧ (∀ x ∈ SaTables.joinLiterals, x ∈ joinTypes) ∧ (∀ x ∈ joinTypes, x ∈ SaTables.joinLiterals)
     ∧ SaTables.paramWrites = []
     ∧ SaTables.typeRegexes = ["^INT[\\d]*$", "^FLOAT[\\d]*$"]
